@@ -5,6 +5,7 @@ import (
 	"fmt"
 	"sort"
 
+	"github.com/bartossh/Computantis/src/spice"
 	"verif.local/harness/common"
 	"verif.local/harness/ledger"
 	"verif.local/harness/sched"
@@ -26,7 +27,20 @@ func c07Body(ops []string) func(x *sched.X) {
 		var hs []*vsched.Handle
 		for i, op := range ops {
 			i, op := i, op
-			hs = append(hs, vsched.GoClient(fmt.Sprintf("T%d", i), func() { res[i] = c08Op(w, op, context.Background()) }))
+			hs = append(hs, vsched.GoClient(fmt.Sprintf("T%d", i), func() {
+				if op == "balance" {
+					// the answer itself is judged: A holds 6 in the chain, every concurrent create/add pays it 1 more
+					b, err := w.Nodes[0].Book.CalculateBalance(context.Background(), world.Cast("A").Addr)
+					res[i] = "balance=" + world.ErrClass(err)
+					if err == nil {
+						x.Vars["balance"] = b.Spice
+					} else {
+						x.Vars["balance-err"] = err.Error()
+					}
+					return
+				}
+				res[i] = c08Op(w, op, context.Background())
+			}))
 		}
 		vsched.Join(hs...)
 		vsched.Settle()
@@ -38,7 +52,7 @@ func c07Body(ops []string) func(x *sched.X) {
 	}
 }
 
-func c07Oracle(name string) func(x *sched.X, r *vsched.Result) []common.Violation {
+func c07Oracle(name string, ops []string) func(x *sched.X, r *vsched.Result) []common.Violation {
 	return func(x *sched.X, r *vsched.Result) []common.Violation {
 		var out []common.Violation
 		if !r.RootDone {
@@ -46,6 +60,21 @@ func c07Oracle(name string) func(x *sched.X, r *vsched.Result) []common.Violatio
 			return out
 		}
 		w := x.Vars["w"].(*world.LW)
+		if b, ok := x.Vars["balance"].(spice.Melange); ok {
+			payers := 0
+			for _, op := range ops {
+				if op == "create" || op == "add" {
+					payers++
+				}
+			}
+			if b.SupplementaryCurrency != 0 || b.Currency < 6 || b.Currency > uint64(6+payers) {
+				out = append(out, common.Violation{Predicate: "C07.balances", Key: "C07.balance-changed-by-racing-truncation",
+					What: fmt.Sprintf("%s: a balance query racing the truncation answered %d.%018d for a wallet that holds 6 (plus at most %d concurrent payments of 1)", name, b.Currency, b.SupplementaryCurrency, payers)})
+			}
+		}
+		if e, ok := x.Vars["balance-err"].(string); ok {
+			out = append(out, common.Violation{Predicate: "C07.balances", Key: "C07.balance-query-failed-while-truncating", What: name + ": the balance query racing the truncation failed: " + e})
+		}
 		for _, v := range ledger.SnapshotOracles(w, w.Nodes[0], "C07", "C03", "C09") {
 			v.What = name + ": " + v.What
 			if v.Property != "C07" {
@@ -61,13 +90,14 @@ func c07Scenarios() map[string]*sched.Scenario {
 	m := map[string]*sched.Scenario{}
 	opt := vsched.Options{BranchSched: true, BranchData: true, KeyFunc: world.KeyFunc}
 	add := func(name string, ops ...string) {
-		m[name] = &sched.Scenario{Name: name, Params: []int{0}, Opt: opt, Body: c07Body(ops), Oracle: c07Oracle(name),
+		m[name] = &sched.Scenario{Name: name, Params: []int{0}, Opt: opt, Body: c07Body(ops), Oracle: c07Oracle(name, ops),
 			Setup:       func() { world.GetNodes("G") },
 			Interesting: func(x *sched.X, r *vsched.Result) bool { n, _ := x.Vars["stored"].(int); return n > 0 }}
 	}
 	add("truncate||create", "truncate", "create")
 	add("truncate||add", "truncate", "add")
 	add("truncate||create||balance", "truncate", "create", "balance")
+	add("truncate||balance", "truncate", "balance")
 	add("truncate||truncate", "truncate", "truncate")
 	add("truncate||add||create", "truncate", "add", "create")
 	return m
